@@ -132,9 +132,9 @@ func init() {
 				"a case is one (document, options, sequence); states = distinct (options, reference document) reached"}
 		if tier == "thorough" {
 			p.Alpha = []*AlphaCfg{first, first}
-			return append([]*seqProp{p, deepPhase(p, first, DqCore)}, sizePhases(p, tier, 3, false)...)
+			return append(append([]*seqProp{p}, sizePhases(p, tier, 3, false)...), deepPhase(p, first, DqCore)) // the deep phase last: it is the one a deadline may cut
 		}
-		mini := miniDeep(p, `{"a":{"x":1},"k":[0]}`)
+		mini := miniDeep(p, `{"a":{"x":{"y":1}},"k":[0]}`)
 		// the package-level defaults (SupportNegativeIndices) through Apply AND ApplyIndent
 		defs := &seqProp{ID: "C01", UseDefaults: true, Docs: []string{Dq[2], Dq[10]}, Opts: optsNeg(defaultOpt), Depth: 2,
 			Alpha: []*AlphaCfg{{Values: v2, ReplValues: v1n}, {Values: v1n, ReplValues: v1n, Kinds: kinds("add", "remove", "test"), MaxFroms: 4}},
@@ -237,6 +237,10 @@ func init() {
 		lits := parseAll([]string{`{"n":1.0,"e":1e400,"z":-0,"big":12345678901234567890123}`, `{"b":2,"a":1,"c":{"z":1.50,"y":2}}`, `{"c":{"y":null,"x":1.0},"d":0.10,"a":1E2}`, `{"z":{"n":-0.0}}`})
 		docs := append(onlyObjs(v2), lits...)
 		runMergeEdges(ctx, "C05", false, docs, append(append([]*rj.Value(nil), v2...), lits...), mergeCfg{ordered: true})
+		// three names: a created member whose name sorts between two survivors (order must be creation order, not name order)
+		o3 := objectsOver([]string{"a", "m", "z"}, parseAll([]string{`1`, `null`, `{"x":1}`}))
+		p3 := objectsOver([]string{"a", "b", "y", "zz"}, parseAll([]string{`2`, `null`}))
+		runMergeEdges(ctx, "C05", false, o3, p3, mergeCfg{ordered: true})
 		w40 := rj.MustParse(wide40())
 		many := rj.NewObj()
 		for i := 0; i < 20; i++ {
@@ -249,7 +253,7 @@ func init() {
 			Rule: "as C01 (SupportNegativeIndices on), judged with ORDERED equality: member order must equal the reference's " +
 				"(survivors keep relative order, created members appended in creation order, replace/add-on-existing keep position) and every number literal must be byte-identical; includes the empty patch on every document"}
 		if tier == "thorough" {
-			return []*seqProp{p, deepPhase(p, &AlphaCfg{}, append(append([]string(nil), DqCore...), Dq[4]))}
+			return append(append([]*seqProp{p, stringTokenPhase(p, 5)}, sizePhases(p, tier, 2, false)...), deepPhase(p, &AlphaCfg{}, append(append([]string(nil), DqCore...), Dq[4])))
 		}
 		return append([]*seqProp{p, miniDeep(p, `{"b":{"y":1.0,"x":null},"a":[1e400]}`), scalePhase(p), stringTokenPhase(p, 4)}, sizePhases(p, tier, 2, false)...)
 	}, 240*time.Second, 25*time.Minute)
@@ -293,9 +297,9 @@ func init() {
 			p.Alpha = []*AlphaCfg{{InteriorNeg: true}, a}
 			d := deepPhase(p, a, DqCore)
 			d.Alpha[2] = &AlphaCfg{Values: v1n, ReplValues: v1n, Kinds: kinds("remove", "move", "add", "test")}
-			return append([]*seqProp{p, d, widthSizePhase(p, []int{31, 32, 33, 63, 64, 65, 127, 128, 129}, 4, false)}, sizePhases(p, tier, 3, true)...)
+			return append(append([]*seqProp{p, widthSizePhase(p, []int{31, 32, 33, 63, 64, 65, 127, 128, 129}, 4, false)}, sizePhases(p, tier, 3, true)...), d)
 		}
-		return []*seqProp{p, miniDeep(p, `{"a":{"x":1},"k":[0]}`),
+		return []*seqProp{p, miniDeep(p, `{"a":{"x":{"y":1}},"k":[0]}`),
 			widthSizePhase(p, []int{0, 1, 2, 7, 8, 9, 15, 16, 17, 31, 32, 33, 63, 64, 65, 127, 128, 129}, 3, false), widthSizePhase(p, []int{255, 256, 257, 1024}, 2, false), prefixNamesPhase(p)}
 	}, 240*time.Second, 25*time.Minute)
 
@@ -371,7 +375,8 @@ func init() {
 	registerSeqPlus("C15", func(ctx *core.Ctx, tier string) {
 		runMergeOutputs(ctx, tier)
 	}, func(tier string) []*seqProp {
-		opts := []r69.Options{{Neg: true, EscapeHTML: true}, {Neg: true, EscapeHTML: false}, {Neg: true, EscapeHTML: false, Ensure: true}}
+		// (the last one: a copy limit that is set but never reached - the limit must not change how anything is spelled)
+		opts := []r69.Options{{Neg: true, EscapeHTML: true}, {Neg: true, EscapeHTML: false}, {Neg: true, EscapeHTML: false, Ensure: true}, {Neg: true, EscapeHTML: false, Limit: 1 << 40}}
 		docs := []string{
 			`{"h":"<>&","<k>":{"x":"a<b"},"a":[1,"&"]}`,
 			"{\"u\":\"\u2028x\u2029\",\"q\":\"\\\"\\\\\\n\",\"s\":{\"\U0001F600\":\"\\ud83d\\ude00\",\"l\":\"\\ud800\"}}",
@@ -411,10 +416,10 @@ func init() {
 				"sequences whose first inapplicable operation is a failed test, a remove/move of an absent target or an out-of-range index must return an error and no document; other failures are outside the stated domain"}
 		if tier == "thorough" {
 			p.Docs = append(p.Docs, Dq[12], Dq[13])
-			return append([]*seqProp{p, deepPhase(p, a, []string{Dq[0], Dq[2], Dq[3], Dq[10]})}, sizePhases(p, tier, 3, false)...)
+			return append(append([]*seqProp{p}, sizePhases(p, tier, 3, false)...), deepPhase(p, a, []string{Dq[0], Dq[2], Dq[3], Dq[10]}))
 		}
 		// a small depth-3 phase on every change (it finds the copied-null defect of the legacy package)
-		mini := miniDeep(p, `{"a":{"x":1},"k":[0]}`)
+		mini := miniDeep(p, `{"a":{"x":{"y":1}},"k":[0]}`)
 		return append([]*seqProp{p, mini, scalePhase(p)}, sizePhases(p, tier, 3, false)...)
 	}, 240*time.Second, 25*time.Minute)
 }
